@@ -7,7 +7,7 @@
    the bound on the wait is the peer's, see design/C16.md "end of life".) *)
 From Coq Require Import List NArith Arith Bool Lia.
 From Coq Require Import ZifyBool ZifyNat ZifyN.
-From SNT Require Import Base.Outcome IO.IOQueue IO.IOQueueProofs IO.TermIO.
+From SNT Require Import Base.Outcome IO.IOQueue IO.IOQueueProofs IO.IOQueueFrames IO.TermIO IO.TermIOProofs.
 Import ListNotations.
 
 Arguments N.add : simpl never.
@@ -24,6 +24,34 @@ Section Live.
 
   Definition TI (t : term) : Prop :=
     Inv (tq t) /\ (N.of_nat (total_len (chunks (tq t))) <= usize_max)%N.
+
+  (* a round in which the tty is writable, whatever it accepts (k = 0: EAGAIN / EINTR): nothing is
+     lost or reordered and the work left never grows *)
+  Lemma accept_any : forall (t : term) k, TI t ->
+    exists t', poll_round t (KAccept k) = Ok t' /\ TI t'
+      /\ tty t' ++ pending (tq t') = tty t ++ pending (tq t)
+      /\ work t' <= work t.
+  Proof.
+    intros t k [HI HB]. cbn [poll_round].
+    destruct (is_empty (tq t)) eqn:Hemp.
+    { exists t. split; [reflexivity|]. split; [split; auto|]. split; [reflexivity|lia]. }
+    pose proof (offset_le_total (tq t) (inv_off _ HI)) as Hot.
+    unfold consume_with. rewrite (as_slice_ok (tq t) (inv_off _ HI)). cbn [bind].
+    set (s := front_slice (tq t)) in *. set (size := consumer k true s).
+    assert (Hsize : (size <= N.of_nat (length s))%N) by (unfold size, consumer; lia).
+    destruct (consume_take (tq t) size HI) as (q' & E & Ht); [lia|].
+    rewrite E. cbn [bind].
+    destruct (take_sound (tq t) size q' HI Ht) as (HI' & Htot & _ & Hp).
+    eexists. split; [reflexivity|]. unfold TI. cbn [tq tty]. split; [split; [exact HI'|lia]|]. split.
+    - rewrite Hp. fold s. unfold taken.
+      replace (N.min size (N.of_nat (length s))) with size by lia. now rewrite <- app_assoc.
+    - unfold work. cbn [tq].
+      destruct Ht as [[Hlt ->]|[Hge ->]].
+      + rewrite Hp. unfold taken. fold s. rewrite app_length, firstn_length.
+        unfold chunks_count, q_adv. cbn [chunks]. lia.
+      + rewrite Hp. rewrite app_length. unfold chunks_count, q_pop. cbn [chunks].
+        unfold is_empty in Hemp. destruct (chunks (tq t)) as [|c r]; [discriminate|]. cbn [tl length]. lia.
+  Qed.
 
   Lemma accept_progress : forall (t : term) k, TI t -> (0 < k)%N ->
     exists t', poll_round t (KAccept k) = Ok t' /\ TI t'
@@ -78,5 +106,97 @@ Section Live.
       + specialize (Hless eq_refl). cbn [length] in Hw.
         destruct (IH t1 HT1 Hrest ltac:(lia)) as (t' & E' & He & Ht'). exists t'.
         split; auto. split; auto. rewrite Ht'. exact Hs.
+  Qed.
+  (* ---- the same with idle rounds and rounds in which the write is refused (EAGAIN, EINTR: k = 0)
+     anywhere in between: what counts is the number of rounds in which at least one byte is
+     accepted.  Only rounds in which the loop queues output itself are excluded (they add work). *)
+  Definition acceptingb (r : round) : bool := match r with KAccept k => (0 <? k)%N | _ => false end.
+  Definition quiet (r : round) : Prop := match r with KInternal _ => False | _ => True end.
+
+  Fixpoint accepting_count (sched : list round) : nat :=
+    match sched with
+    | [] => 0
+    | r :: rest => (if acceptingb r then 1 else 0) + accepting_count rest
+    end.
+
+  Lemma work_zero_empty : forall t : term, work t = 0 -> is_empty (tq t) = true /\ pending (tq t) = [].
+  Proof.
+    intros t H. unfold work, chunks_count, is_empty, pending in *.
+    destruct (chunks (tq t)); [auto|cbn in H; lia].
+  Qed.
+
+  Lemma quiet_rounds_keep : forall (sched : list round) (t : term),
+    TI t -> Forall quiet sched ->
+    exists t', poll_rounds t sched = Ok t' /\ TI t'
+      /\ tty t' ++ pending (tq t') = tty t ++ pending (tq t)
+      /\ work t' <= work t
+      /\ (work t <= accepting_count sched -> work t' = 0).
+  Proof.
+    induction sched as [|r sched IH]; intros t HT Hq.
+    - exists t. cbn [poll_rounds accepting_count]. split; [reflexivity|]. split; [exact HT|].
+      split; [reflexivity|]. split; lia.
+    - inversion Hq as [|? ? Hr Hrest]; subst.
+      assert (Hstep : exists t1, poll_round t r = Ok t1 /\ TI t1
+                /\ tty t1 ++ pending (tq t1) = tty t ++ pending (tq t)
+                /\ work t1 <= work t
+                /\ (acceptingb r = true -> work t = 0 \/ work t1 < work t)).
+      { destruct r as [k| |b]; [| |contradiction].
+        - destruct (accept_any t k HT) as (t1 & E & HT1 & Hs & Hle).
+          exists t1. split; [exact E|]. split; [exact HT1|]. split; [exact Hs|]. split; [exact Hle|].
+          intro Hk. cbn [acceptingb] in Hk.
+          destruct (accept_progress t k HT ltac:(lia)) as (t2 & E2 & _ & _ & Hsame & Hless).
+          rewrite E in E2. inversion E2; subst t2.
+          destruct (is_empty (tq t)) eqn:Hemp.
+          + left. unfold work, chunks_count, is_empty, pending in *.
+            destruct (chunks (tq t)); [reflexivity|discriminate].
+          + right. now apply Hless.
+        - exists t. cbn [poll_round acceptingb]. split; [reflexivity|]. split; [exact HT|].
+          split; [reflexivity|]. split; [lia|discriminate]. }
+      destruct Hstep as (t1 & E & HT1 & Hs & Hle & Hacc).
+      destruct (IH t1 HT1 Hrest) as (t' & E' & HT' & Hs' & Hle' & Hz).
+      exists t'. cbn [poll_rounds]. rewrite E. cbn [bind]. split; [exact E'|]. split; [exact HT'|].
+      split; [now rewrite Hs'|]. split; [lia|].
+      cbn [accepting_count]. intro Hw. apply Hz.
+      destruct (acceptingb r) eqn:Hb; [|lia].
+      destruct (Hacc eq_refl); lia.
+  Qed.
+
+  Theorem rounds_drain : forall (sched : list round) (t : term),
+    TI t -> Forall quiet sched -> work t <= accepting_count sched ->
+    exists t', poll_rounds t sched = Ok t'
+      /\ is_empty (tq t') = true
+      /\ tty t' = tty t ++ pending (tq t).
+  Proof.
+    intros sched t HT Hq Hw.
+    destruct (quiet_rounds_keep sched t HT Hq) as (t' & E & _ & Hs & _ & Hz).
+    destruct (work_zero_empty t' (Hz Hw)) as [He Hp].
+    exists t'. split; auto. split; auto. rewrite Hp, app_nil_r in Hs. exact Hs.
+  Qed.
+
+  (* the states the theorem is about: every state a program reaches (from the empty terminal
+     object, under any kernel schedule) satisfies TI *)
+  Theorem reachable_TI : forall (prog : list (top A)) t X,
+    (N.of_nat (length (twritten prog)) <= usize_max)%N ->
+    trun term0 prog [] = Ok (t, X) -> TI t.
+  Proof.
+    intros prog t X HB E.
+    destruct (term_delivery prog HB) as (t' & X' & E' & Ex & _ & _ & HI). rewrite E in E'.
+    inversion E'; subst t' X'. split; [exact HI|].
+    destruct (queue_history (compile prog) ltac:(rewrite written_compile; exact HB))
+      as [[E2 _]|(q & R & X' & E2 & _ & _ & Htot)]; rewrite Ex in E2; [discriminate|].
+    inversion E2; subst. rewrite written_compile in Htot. lia.
+  Qed.
+
+  (* ... so: after any program, any further schedule of accepting / refusing / idle rounds with
+     enough accepting ones delivers all that is pending, in order, and leaves the queue empty *)
+  Theorem run_then_rounds_drain : forall (prog : list (top A)) t X (sched : list round),
+    (N.of_nat (length (twritten prog)) <= usize_max)%N ->
+    trun term0 prog [] = Ok (t, X) ->
+    Forall quiet sched -> work t <= accepting_count sched ->
+    exists t', poll_rounds t sched = Ok t'
+      /\ is_empty (tq t') = true
+      /\ tty t' = tty t ++ pending (tq t).
+  Proof.
+    intros prog t X sched HB E Hq Hw. apply rounds_drain; auto. exact (reachable_TI prog t X HB E).
   Qed.
 End Live.
